@@ -31,6 +31,11 @@ def reaches(prog, start_rx, target_rx, from_body):
     return False
 
 
+def _ordinal(items, blk):
+    k = [i for (i, _) in items].index(blk) + 1
+    return {1: "1st", 2: "2nd", 3: "3rd"}.get(k, "%dth" % k)
+
+
 def run(ctx):
     prog = ctx.prog
     ctx.rule("R1", "feedback-wiring completeness: every journal frame kind is routed on loss and on ack to the owner of the "
@@ -166,5 +171,38 @@ def run(ctx):
         ctx.ob("R4", "%s|depends on SendBuf::is_all_rcvd" % b.short, ok, b.where(),
                "the predicate reaches SendBuf::is_all_rcvd: %s — completing on the FIN acknowledgement alone drops the stream "
                "while earlier data is still unacknowledged, so a lost range is never retransmitted" % ok)
+    # ---------------------------------------------------------------- R5: reassembly cursor coupling
+    ctx.rule("R5", "reassembly cursor coupling: inside RecvBuf::recv's placement loop every operation that cuts a prefix off the "
+                   "incoming data (advance / split_to / split_off) is on a loop iteration that also moves the stream-offset cursor "
+                   "`start`; otherwise the rest of the data is placed at the offset of the part already consumed")
+    rb = ctx.anchor("R5", "qrecovery::recv::rcvbuf::RecvBuf::recv")
+    if rb:
+        starts = rb.locals_named("start")
+        datas = rb.locals_named("data")
+        heads = sorted(set(v for u in rb.live_blocks() for v in rb.succ(u) if rb.dominates(v, u)))
+        W = set(i for (i, j, p, rv, line) in rb.assigns() if len(p) == 1 and p[0] in starts and i not in (0,))
+        cuts = []
+        for i, t in rb.calls():
+            if re.search(r"Buf>::advance$|bytes::Bytes::split_to$|bytes::Bytes::split_off$", callee(t)) and t["args"]:
+                a0 = op_place(t["args"][0])
+                if a0 is not None and any(jj != "term" and rv2[0] == "ref" and rv2[2][0] in datas
+                                          for (bb, jj, rv2) in rb.defs_of(a0[0])):
+                    cuts.append((i, t))
+        in_loop = [(i, t) for (i, t) in cuts if any(i in rb.reachable_from(h) and h in rb.reachable_from(i) for h in heads)]
+        ctx.floor("R5", "prefix-cutting calls inside the placement loop", len(in_loop), 4)
+        ctx.floor("R5", "writes of the cursor `start`", len(W), 4)
+        for (i, t) in in_loop:
+            bad = None
+            for h in heads:
+                if h not in rb.reachable_from(i):
+                    continue
+                to_c = i in rb.reachable_from(h, avoid=W) or i == h
+                nxt = t.get("to")
+                back = nxt is not None and i not in W and (h == nxt or h in rb.reachable_from(nxt, avoid=W))
+                if to_c and back and i not in W:
+                    bad = h
+            ctx.ob("R5", "%s|%s at the %s cut moves `start` in the same iteration" % (rb.short, callee(t).split("::")[-1],
+                                                                                  _ordinal(in_loop, i)), bad is None, rb.where(t["line"]),
+                   "cut at bb%d; an iteration through it that never writes `start`: %s" % (i, "none" if bad is None else "exists (loop head bb%d)" % bad))
     # who else writes the final states
     ctx.assume("BufMap::may_loss / ack_rcvd re-colour exactly the given range (value-level, C09)")
